@@ -76,8 +76,25 @@ Proof.
   - destruct (split_on "."%char (trim_prefix "go" s)) as [|a [|b [|c l]]]; try discriminate.
     destruct (version_part a) as [x|] eqn:Ea; [|discriminate].
     destruct (version_part b) as [y|] eqn:Eb; [|discriminate].
+    destruct (Z.eqb x 0); [discriminate|].
     intros H; injection H as <-. right. exists a, b. auto.
 Qed.
+
+(* a version named on the command line is never the internal "no constraint" value: major 0 only comes from the empty request *)
+Lemma parse_major_zero_only_unset s v : parse_go_version s = Some v -> fst v = 0 -> trim_prefix "go" s = "" /\ v = (0, 0).
+Proof.
+  unfold parse_go_version. destruct (String.eqb (trim_prefix "go" s) "") eqn:E.
+  - intros H _; injection H as <-. apply String.eqb_eq in E. auto.
+  - destruct (split_on "."%char (trim_prefix "go" s)) as [|a [|b [|c l]]]; try discriminate.
+    destruct (version_part a) as [x|]; [|discriminate].
+    destruct (version_part b) as [y|]; [|discriminate].
+    destruct (Z.eqb_spec x 0); [discriminate|].
+    intros H; injection H as <-. cbn [fst]. intros ->. contradiction.
+Qed.
+
+Lemma parse_zero_major_prefix_refuted :
+  parse_go_version_zero_major_prefix "0.7" = Some (0, 7) /\ parse_go_version "0.7" = None /\ parse_go_version "go0.0" = None.
+Proof. vm_compute. auto. Qed.
 
 (* digits is the positional decimal value *)
 Lemma digits_acc_snoc s acc d a : digit_val a = Some d ->
